@@ -35,7 +35,7 @@ RULE = ('Hypothesis: CamxSpec restricted to the formats that have both '
         'define it.  If both readers reject the file the case is outside '
         '"files that both reader families accept" (label both-reject).  '
         'Non-trivial: steps>1 and nz>1, or a day/year/century/leap '
-        'roll-over inside the file.  Distinct by sha1 of the case spec.')
+        'roll-over inside the file.  Distinct by sha1 of the case spec.' + '  Domain by construction: lateral_boundary nx, ny >= 2 (an edge needs its two corner cells), EMISSIONS nz = 1, AIRQUALITY one step, steps of whole hours (lateral_boundary 1 h), every instant incl. the last end time inside 1970-2069, species names not DATE/TFLAG/ETFLAG, a 3-variable cloud_rain file whose size is also a whole number of 5-variable steps is not generated (the format stores no variable count), old-style landuse with at most one optional field.')
 ASSUMPTIONS = ['a file accepted by vf.ref.camx_ref.decode is a valid CAMx '
                'file', 'two-digit years denote 1970-2069']
 BUDGET = {'quick': dict(examples=2400, max_s=200),
@@ -225,7 +225,9 @@ known.register('C13-read-met-1step', lambda spec, f: (
     f.klass == spec['fmt'] + '/read' and
     ((f.clause == 'one-reader-raises' and f.where in (
         'OSError@camxfiles/FortranFileUtil.py:check_read',
-        'ValueError@camxfiles/FortranFileUtil.py:seek')) or
+        'ValueError@camxfiles/FortranFileUtil.py:seek',
+        # form the failure takes once the endless loop is repaired
+        'OSError@camxfiles/wind/Read.py:__gettimestep')) or
      (f.clause == 'nontermination' and spec['fmt'] == 'wind' and
       f.where == 'NonTermination@camxfiles/wind/Read.py:__gettimestep'))))
 known.register('C13-wind-memmap-1cell', lambda spec, f: (
